@@ -132,7 +132,7 @@ pub fn generate(seed: u64, tier: Tier) -> Case {
             .filter(|it| closed.contains(&it.module))
             .map(|it| it.name.clone())
             .collect();
-        match rng.below(8) {
+        match rng.below(9) {
             0 | 1 => {
                 // A new module; some of its types share their short name with types the
                 // observed closure uses.
@@ -247,6 +247,61 @@ pub fn generate(seed: u64, tier: Tier) -> Case {
                     push_item(&mut rng, &mut p, it);
                     observed.remove(&p.modules[x].out_path());
                     notes.push("edit:unreferenced_type_in_imported_module".to_string());
+                }
+            }
+            7 => {
+                // A new module that *uses* items of the observed closure (also private ones):
+                // it depends on them, they do not depend on it.
+                let targets: Vec<usize> = (0..p.items.len())
+                    .filter(|i| closed.contains(&p.items[*i].module))
+                    .collect();
+                if !targets.is_empty() {
+                    let k = p.modules.len();
+                    p.modules.push(Module {
+                        path: vec![format!("client{k}")],
+                        type_imports: rng.chance(1, 2),
+                        ..Default::default()
+                    });
+                    for j in 0..rng.range(1, 3) {
+                        let t = *rng.pick(&targets);
+                        let idx = p.items.len();
+                        let ty = match rng.below(3) {
+                            0 => Ty::Item(t),
+                            1 => Ty::Item(t).cptr(),
+                            _ => Ty::Item(t).mptr().arr(2),
+                        };
+                        let mut it = simple_type(format!("C{k}_{j}"), k, 0, false, ptr);
+                        if let ItemKind::Type {
+                            fields,
+                            align,
+                            impl_funcs,
+                            ..
+                        } = &mut it.kind
+                        {
+                            // A single region: the default alignment is that region's.
+                            *fields = vec![field("uses", ty.clone())];
+                            *align = None;
+                            if rng.chance(1, 2) {
+                                impl_funcs.push(crate::project::Func {
+                                    vis: true,
+                                    name: format!("client_fn_{idx}"),
+                                    recv: Some(false),
+                                    args: vec![("x".into(), Ty::Item(t).cptr())],
+                                    ret: Some(Ty::Item(t).mptr()),
+                                    address: Some(0x6000 + idx),
+                                    index: None,
+                                    cc: None,
+                                    doc: None,
+                                });
+                            }
+                        }
+                        let has_impl = matches!(&it.kind, ItemKind::Type { impl_funcs, .. } if !impl_funcs.is_empty());
+                        push_item(&mut rng, &mut p, it);
+                        if has_impl {
+                            p.modules[k].order.push(Decl::Impl(idx));
+                        }
+                    }
+                    notes.push("edit:add_module_that_uses_observed_items".to_string());
                 }
             }
             _ if !unrelated.is_empty() => {
